@@ -231,6 +231,8 @@ def random_nfa(Sigma: Set[Symbol], n: int) -> NFA:
 def nfa_repetition(N: NFA, id_generator: IdentifierGenerator = IdentifierGenerator()) -> NFA:
     Sigma = N.Sigma
     q0 = State(id_generator.generate('q'))
+    while q0 in N.Q:
+        q0 = State(id_generator.generate('q'))
     Q = N.Q | {q0}
     F = N.F | {q0}
     delta = defaultdict(lambda: set([]))
@@ -238,20 +240,22 @@ def nfa_repetition(N: NFA, id_generator: IdentifierGenerator = IdentifierGenerat
     for q in F:
         delta[q, N.epsilon] |= {N.q0}
     delta[q0, N.epsilon] = {N.q0}
-    return NFA(Q, Sigma, delta, q0, F)
+    return NFA(Q, Sigma, delta, q0, F, N.epsilon)
 
 
 def nfa_union(N1: NFA, N2: NFA, id_generator: IdentifierGenerator = IdentifierGenerator()) -> NFA:
     assert N1.Q.isdisjoint(N2.Q)
     Sigma = N1.Sigma | N2.Sigma
     q0 = State(id_generator.generate('q'))
+    while q0 in N1.Q or q0 in N2.Q:
+        q0 = State(id_generator.generate('q'))
     Q = N1.Q | N2.Q | {q0}
     F = N1.F | N2.F
     delta = defaultdict(lambda: set([]))
     delta.update(N1.delta)
     delta.update(N2.delta)
     delta[q0, N1.epsilon] = {N1.q0, N2.q0}
-    return NFA(Q, Sigma, delta, q0, F)
+    return NFA(Q, Sigma, delta, q0, F, N1.epsilon)
 
 
 def nfa_concatenation(N1: NFA, N2: NFA) -> NFA:
@@ -265,7 +269,7 @@ def nfa_concatenation(N1: NFA, N2: NFA) -> NFA:
     delta.update(N2.delta)
     for q in N1.F:
         delta[q, N1.epsilon] |= {N2.q0}
-    return NFA(Q, Sigma, delta, q0, F)
+    return NFA(Q, Sigma, delta, q0, F, N1.epsilon)
 
 
 def print_nfa(N: NFA) -> str:
